@@ -6,7 +6,8 @@ together with kernel-checked theorems that they equal the constants of the FIPS 
 Spec/Sha256.lean, Spec/Sha512.lean, Spec/Blake2s.lean:
 
   src/md/sha224-256.c   K[64] of SHA224_256ProcessMessageBlock, SHA224_H0, SHA256_H0
-  src/md/sha384-512.c   K[80] (uint64_t variant), SHA384_H0, SHA512_H0 (uint64_t variants)
+  src/md/sha384-512.c   BOTH variants of the file: K[80], SHA384_H0, SHA512_H0 as uint64_t, and K[80*2], SHA384_H0[16], SHA512_H0[16] as
+                        pairs of uint32_t (USE_32BIT_ONLY — the variant the library actually compiles, see findings/C14-ext-1.md)
   src/md/blake2s-ref.c  blake2s_IV[8], blake2s_sigma[10][16]
 
 and, checked on the python side (the Lean definitions carry them as literals inside the functions), the rotation / shift amounts
@@ -75,6 +76,9 @@ TABLES = [
     ("sha512K", "src/md/sha384-512.c", r"static\s+const\s+uint64_t\s+K\s*\[\s*80\s*\]", 64, 80, "UInt64", "Relic.Spec.Sha512.K"),
     ("sha384H0", "src/md/sha384-512.c", r"static\s+uint64_t\s+SHA384_H0\s*\[[^\]]*\]", 64, 8, "UInt64", "Relic.Spec.Sha512.H0_384.toArray"),
     ("sha512H0", "src/md/sha384-512.c", r"static\s+uint64_t\s+SHA512_H0\s*\[[^\]]*\]", 64, 8, "UInt64", "Relic.Spec.Sha512.H0_512.toArray"),
+    ("sha512K32", "src/md/sha384-512.c", r"static\s+const\s+uint32_t\s+K\s*\[\s*80\s*\*\s*2\s*\]", 32, 160, "UInt32", None),
+    ("sha384H032", "src/md/sha384-512.c", r"static\s+uint32_t\s+SHA384_H0\s*\[[^\]]*\]", 32, 16, "UInt32", None),
+    ("sha512H032", "src/md/sha384-512.c", r"static\s+uint32_t\s+SHA512_H0\s*\[[^\]]*\]", 32, 16, "UInt32", None),
     ("blake2sIV", "src/md/blake2s-ref.c", r"static\s+const\s+uint32_t\s+blake2s_IV\s*\[\s*8\s*\]", 32, 8, "UInt32", "Relic.Spec.Blake2s.IV"),
 ]
 
@@ -114,8 +118,9 @@ def generate(out_path=None):
             failures.append("translate_md: %s" % e)
             ob["error"] = str(e)
             parts.append("def %s : Array %s := #[]\n" % (name, ty))
-        thms.append("/-- the constant of the C text is the constant of the standard's definition -/\n"
-                    "theorem %s_eq : %s = %s := by decide +kernel\n" % (name, name, spec))
+        if spec is not None:
+            thms.append("/-- the constant of the C text is the constant of the standard's definition -/\n"
+                        "theorem %s_eq : %s = %s := by decide +kernel\n" % (name, name, spec))
         obligations.append(ob)
     # sigma: 10 x 16
     ob = {"name": "blake2sSigma", "file": "src/md/blake2s-ref.c", "ok": False}
@@ -159,6 +164,12 @@ def generate(out_path=None):
     except OSError as e:
         failures.append("translate_md: %s" % e)
     obligations.append(ob)
+    # the 32-bit-pair variant: (hi, lo) pairs are the 64-bit constants
+    thms.append("def join32 (a : Array UInt32) : List UInt64 :=\n"
+                "  (List.range (a.size / 2)).map fun i => ((a.getD (2 * i) 0).toUInt64 <<< (32 : UInt64)) ||| (a.getD (2 * i + 1) 0).toUInt64\n")
+    thms.append("theorem sha512K32_eq : join32 sha512K32 = Relic.Spec.Sha512.K.toList := by decide +kernel\n")
+    thms.append("theorem sha384H032_eq : join32 sha384H032 = Relic.Spec.Sha512.H0_384 := by decide +kernel\n")
+    thms.append("theorem sha512H032_eq : join32 sha512H032 = Relic.Spec.Sha512.H0_512 := by decide +kernel\n")
     parts += thms
     parts += ["", "end Relic.Gen.MdConsts", ""]
     text = "\n".join(parts)
